@@ -55,6 +55,8 @@ OPS = {
     "removeCurve": ("RemoveOther", "(s : Reg) (n : Name)", "removeCurveR s n", ["(hu : ∀ u, u ∉ ulook (s.usage .curve) n)"], ""),
     "removeSource": ("RemoveOther", "(s : Reg) (n : Name) (si : SourceInfo)", "removeSourceR s n si",
                      ["(hi : AL.get? s.sources n = some si)"], ""),
+    "setSourceNode": ("RemoveOther", "(s : Reg) (n node : Name) (si : SourceInfo)", "setSourceNodeR s n node si",
+                      ["(hi : AL.get? s.sources n = some si)"], ""),
     "setEndNode": ("SetLink", "(s : Reg) (l n : Name) (isStart : Bool) (i : LinkInfo)", "setEndNodeR s l n isStart i",
                    ["(hi : AL.get? s.links l = some i)", "(hx : ∃ x, AL.get? s.nodes n = some x)"],
                    "cases isStart <;> simp only [Bool.false_eq_true, if_false, if_true]"),
